@@ -41,12 +41,18 @@ func MapKeys[M ~map[K]V, K comparable, V any](m M) []K {
 	case reflect.Struct, reflect.Array, reflect.Bool:
 		if hasPointers(t) {
 			Unordered++
-			return keys
+			sortByIdentity(keys)
+			break
 		}
 		sort.Slice(keys, func(i, j int) bool { return fmt.Sprintf("%#v", keys[i]) < fmt.Sprintf("%#v", keys[j]) })
 	default:
+		// Pointer, interface, chan keys: the runtime's iteration order starts at a
+		// random slot (two entries swap with probability about 1/8), which no replay
+		// can reproduce. Order them by identity (address) instead: with the collector
+		// held off inside a case, addresses follow allocation order and are the same
+		// in every run of the same case.
 		Unordered++
-		return keys
+		sortByIdentity(keys)
 	}
 	if s := sim.Current(); s != nil && s.Cfg.ShuffleMaps {
 		for i := len(keys) - 1; i > 0; i-- {
@@ -57,6 +63,65 @@ func MapKeys[M ~map[K]V, K comparable, V any](m M) []K {
 		ShuffleHook(len(keys), func(i, j int) { keys[i], keys[j] = keys[j], keys[i] })
 	}
 	return keys
+}
+
+func sortByIdentity[K comparable](keys []K) {
+	ids := make([]string, len(keys))
+	for i := range keys {
+		ids[i] = identity(reflect.ValueOf(&keys[i]).Elem())
+	}
+	idx := make([]int, len(keys))
+	for i := range idx {
+		idx[i] = i
+	}
+	sort.SliceStable(idx, func(a, b int) bool { return ids[idx[a]] < ids[idx[b]] })
+	out := make([]K, len(keys))
+	for i, j := range idx {
+		out[i] = keys[j]
+	}
+	copy(keys, out)
+}
+
+func identity(v reflect.Value) string {
+	switch v.Kind() {
+	case reflect.Pointer, reflect.Chan, reflect.Func, reflect.UnsafePointer, reflect.Map:
+		return fmt.Sprintf("p%016x", v.Pointer())
+	case reflect.Interface:
+		if v.IsNil() {
+			return "nil"
+		}
+		return v.Elem().Type().String() + ":" + identity(v.Elem())
+	case reflect.Struct:
+		s := "{"
+		for i := 0; i < v.NumField(); i++ {
+			s += identity(v.Field(i)) + ","
+		}
+		return s + "}"
+	case reflect.Array:
+		s := "["
+		for i := 0; i < v.Len(); i++ {
+			s += identity(v.Index(i)) + ","
+		}
+		return s + "]"
+	case reflect.Int, reflect.Int8, reflect.Int16, reflect.Int32, reflect.Int64:
+		return fmt.Sprintf("i%020d", uint64(v.Int())+1<<63)
+	case reflect.Uint, reflect.Uint8, reflect.Uint16, reflect.Uint32, reflect.Uint64, reflect.Uintptr:
+		return fmt.Sprintf("u%020d", v.Uint())
+	case reflect.String:
+		return "s" + v.String()
+	case reflect.Bool:
+		if v.Bool() {
+			return "b1"
+		}
+		return "b0"
+	case reflect.Float32, reflect.Float64:
+		return fmt.Sprintf("f%v", v.Float())
+	case reflect.Complex64, reflect.Complex128:
+		return fmt.Sprintf("c%v", v.Complex())
+	case reflect.Slice:
+		return fmt.Sprintf("p%016x/%d", v.Pointer(), v.Len())
+	}
+	return "?"
 }
 
 // ShuffleHook lets op-tier harnesses (no scheduler installed) explore map order.
@@ -93,4 +158,32 @@ func MapItems[M ~map[K]V, K comparable, V any](m M) []KV[K, V] {
 		out = append(out, KV[K, V]{k, m[k]})
 	}
 	return out
+}
+
+// TryRecvIf is used by the detselect overlay pass: when cond holds it performs a
+// non-blocking receive from c. got reports whether a value (or the closed-channel zero
+// value, ok=false) was received.
+func TryRecvIf[T any](cond bool, c <-chan T) (v T, ok bool, got bool) {
+	if !cond {
+		return
+	}
+	select {
+	case v, ok = <-c:
+		return v, ok, true
+	default:
+		return
+	}
+}
+
+// TrySendIf performs a non-blocking send when cond holds and reports whether it happened.
+func TrySendIf[T any](cond bool, c chan<- T, v T) bool {
+	if !cond {
+		return false
+	}
+	select {
+	case c <- v:
+		return true
+	default:
+		return false
+	}
 }
